@@ -147,9 +147,10 @@ def ev(e, atoms, alias=None, depth=0):
     raise Unknown(type(e).__name__ + ' ' + key)
 
 
-def feasible(paths, atoms, alias=None):
+def feasible(paths, atoms, alias=None, unknown='error'):
     """paths taken under the scenario: list of (events, exit).  A path whose test crashes is
-    returned with exit 'crash'."""
+    returned with exit 'crash'.  unknown='both': a test that mentions something outside the atoms is
+    treated as non-deterministic (both branches stay feasible) instead of making the rule not evaluable."""
     out = []
     for evs, ex in paths:
         ok = True
@@ -163,6 +164,10 @@ def feasible(paths, atoms, alias=None):
                     crashed = True
                     cut = i
                     break
+                except Unknown:
+                    if unknown == 'both':
+                        continue
+                    raise
                 if v != e.val:
                     ok = False
                     break
